@@ -16,6 +16,11 @@ REPLAYS = Path(os.environ.get("HIVEMON_REPLAYS", ROOT / "replays"))
 
 HELD, VIOLATED, INCONCLUSIVE = 0, 1, 2
 
+try:
+    _FLOORS = json.load(open(Path(__file__).resolve().parent / "checks" / "floors.json"))
+except Exception:
+    _FLOORS = {}
+
 
 def load_known() -> List[Dict[str, Any]]:
     if not KNOWN.exists():
@@ -58,6 +63,9 @@ class Verdict:
         self.violations.append(({"property": self.prop, "mechanism": mechanism, "message": message, "step": None, "witness": witness}, case))
 
     def floor(self, name: str, value: float, minimum: float):
+        # calibrated minima (tools/calibrate_floors.py: 40 % of the smallest value seen over a seed sweep on the
+        # unchanged tree) replace the first guesses written in the checks
+        minimum = _FLOORS.get(self.prop, {}).get(self.tier, {}).get(name, minimum)
         self.floors.append((name, value, minimum))
 
     def nontrivial(self, case: Dict[str, Any]):
